@@ -1145,7 +1145,13 @@ def monitor_c04(r):
 # ---- C05 ------------------------------------------------------------------------------------
 
 def monitor_c05(r):
-    if not case_domain(r) or r.kind == "err":
+    if not case_domain(r):
+        return None
+    if r.kind == "err":
+        if r.parse_error:
+            # "Malformed JSON (or a payload the class translator rejects) is answered with a single -32700 error"
+            return "a body the parser/translator rejects was not answered with -32700: the dispatcher raised %s: %s" % (
+                type(r.raw).__name__, str(r.raw)[:120])
         return None
     resp = responses_of(r)
     if resp is None:
